@@ -356,6 +356,9 @@ def run(run, tier, seed):
     depth = 5 if tier == 'quick' else 7
     res = explore.bfs(expand_sink, depth, seed=seed, bound={'depth': depth, 'events': SINK_EVENTS})
     run.add_part('sink_bfs', res)
+    d_un = 4 if tier == 'quick' else 5
+    res = explore.bfs(expand_sink, d_un, seed=seed, merge=False, bound={'depth': d_un, 'merged': False})
+    run.add_part('sink_bfs_unmerged', res)
     hashseed_part(run, range(2) if tier == 'quick' else range(8))
     run.rule = ('all order-preserving interleavings of tuples of per-connection scripts using the same object ids '
                 '(non-trivial = at least two context switches); BFS over open/message/close on the connection-id sink '
